@@ -72,6 +72,72 @@ let run_loop sync toks =
     (if reqs = [] then "." else String.concat ";" reqs) ^ "|" ^ String.concat "," rets
   end
 
+(* ---- requests queued when the generation ends: is there a schedule (k requests handled one
+   by one before the loop notices ctx.Done, the rest drained into the final commit) of the
+   model whose observable projection equals the observation? *)
+let rec permutations = function
+  | [] -> [[]]
+  | l -> List.concat_map (fun x ->
+      let rest = List.filter (fun y -> y != x) l in
+      List.map (fun p -> x :: p) (permutations rest)) l
+
+let run_loopend toks =
+  let cfg = mk_cfg true (zi (-2)) in
+  let kv tk = match String.index_opt tk '=' with
+    | Some i -> (String.sub tk 0 i, String.sub tk (i + 1) (String.length tk - i - 1))
+    | None -> (tk, "") in
+  let parsed = List.map kv toks in
+  let calls = List.filter_map (fun (k, v) -> if k = "c" then Some (tpos v) else None) parsed in
+  let outcomes = List.concat_map (fun (k, v) -> if k = "a" then List.map z_of_hex (String.split_on_char ',' v) else []) parsed in
+  let obs = (try List.assoc "obs" parsed with Not_found -> "") in
+  let n = List.length calls in
+  (* [order]: the order in which calls 1..n-1 ARRIVED in Reader.commits (an environment choice:
+     the calling goroutines race); call ids are assigned in arrival order, [ids] maps back *)
+  let simulate (order : int list) k =
+    let s = ref (loop_state (List.concat calls)) in
+    let base = List.length (!s).st_hist in
+    let outs = ref outcomes in
+    let bad = ref false in
+    let ap l = match step cfg !s l with Some s' -> s := s' | None -> bad := true in
+    let x () = (!s).st_rd O in
+    let attempt () =
+      if (x ()).rd_stash = [] then ap (LLoopAttempt (O, NoFault))
+      else begin
+        let o = (match !outs with o :: r -> outs := r; o | [] -> zi 0) in
+        ap (LLoopAttempt (O, fault_of o))
+      end in
+    let rec drain fuel = match (x ()).rd_loop with
+      | CLBusy _ when fuel > 0 && not !bad -> attempt (); drain (fuel - 1)
+      | _ -> () in
+    ap (LCommitCall (O, List.nth calls 0)); ap (LLoopRecv O); attempt ();
+    List.iter (fun i -> ap (LCommitCall (O, List.nth calls i))) order;
+    ap (LGenEnd O);
+    drain 10;
+    for _ = 1 to k do ap (LLoopRecv O); drain 10 done;
+    ap (LLoopFinal O); drain 10;
+    if !bad then None else begin
+      let rec drop m l = if m = 0 then l else drop (m - 1) (List.tl l) in
+      let evs = drop base (List.rev (!s).st_hist) in
+      let reqs = List.filter_map (function
+        | EvOffsetCommit (_, _, _, offs, code, _) -> Some ("O" ^ str_tpos (sort_amap offs) ^ "=" ^ hex_of_z code)
+        | _ -> None) evs in
+      let ids = Array.of_list (0 :: order) in   (* model call id -> harness call index *)
+      let rets = Array.make n "none" in
+      List.iter (function
+        | EvCommitRet (_, id, res) ->
+          let i = int_of_nat id in
+          if i < n then rets.(ids.(i)) <- (match res with RNil -> "nil" | _ -> "err")
+        | _ -> ()) evs;
+      Some (String.concat ";" reqs ^ "~" ^ String.concat "," (Array.to_list rets))
+    end in
+  if obs = "skip" || n = 0 then "ok" else begin
+    let orders = permutations (List.init (n - 1) (fun i -> i + 1)) in
+    let found = List.exists (fun order ->
+      let rec ks k = k < n && ((match simulate order k with Some p -> p = obs | None -> false) || ks (k + 1)) in
+      ks 0) orders in
+    if found then "ok" else "NOSCHED"
+  end
+
 (* ---- recorded histories *)
 let event_of cfg tk =
   let i = String.index tk '=' in
@@ -177,6 +243,7 @@ let eval (op : string) (a : string list) : string =
     let cm = List.filter (fun (t, _) -> not (List.exists (fun t' -> tp_eqb t t') omit)) committed in
     str_tpos (sort_amap (List.map (fun t -> (t, start_of_raw start (fetch_raw cm t))) (tps asg)))
   | "loop", mode :: toks -> run_loop (mode = "s") toks
+  | "loopend", _ :: toks -> run_loopend toks
   | "hist", sync :: start :: toks ->
     let cfg = mk_cfg (sync = "1") (z_of_hex start) in
     let evs = if toks = ["."] then [] else List.map (event_of cfg) toks in
